@@ -165,6 +165,8 @@ func c20Run(in c20In) (V, Verdict) {
 	prev := c20Rank(d.ReadyState())
 	goneTriggered, rlDone, closeCalled, pcClosed := false, false, false, false
 	closeFinished := make([]bool, in.NClose)
+	closeSteps := make([]int, in.NClose)        // enabled blocks of each Close so far
+	checkedClosed := make([]bool, in.NClose)     // its closed-check ran when the state already was closed
 	for step, t := range sched {
 		if t == 3 { // readLoop's exit path runs once its read has failed
 			if rlDone || !goneTriggered || !d.VerifReadLoopStarted() {
@@ -198,10 +200,22 @@ func c20Run(in c20In) (V, Verdict) {
 		}
 		cur := c20Rank(d.ReadyState())
 		obs = append(obs, cur)
+		if t >= 4 {
+			closeSteps[t-4]++
+			if closeSteps[t-4] == 2 {
+				checkedClosed[t-4] = prev == c20Closed
+			}
+		}
+		if (t == 1 || t == 3) && cur != c20Closed {
+			fail("teardown-did-not-store-closed", fmt.Sprintf("step %d thread %d (1 PeerConnection.Close, 3 readLoop exit) left readyState %d", step, t, cur))
+		}
 		// direct oracle, clause 1: readyState only moves forward
 		if cur < prev {
 			names := []string{"connecting", "open", "closing", "closed"}
 			switch {
+			case t >= 4 && checkedClosed[t-4]:
+				fail("close-stored-closing-although-it-saw-closed",
+					fmt.Sprintf("step %d (Close): readyState %s -> %s, and the check ran after closed was stored", step, names[prev], names[cur]))
 			case t >= 4:
 				fail("close-stored-closing-after-its-closed-check-went-stale",
 					fmt.Sprintf("step %d (Close): readyState %s -> %s", step, names[prev], names[cur]))
